@@ -79,7 +79,7 @@ WellFormed(c) ==
   /\ c.op \in {"SUM", "PROD", "MAX", "MIN", "BXOR"}
   /\ (c.op = "BXOR" => \A r \in 1..c.np : \A i \in 1..Len(c.send[r]) : c.send[r][i] >= 0)
 
-\* a barrier: nobody leaves before everybody has entered (times in integer nanoseconds)
+\* a barrier: nobody leaves before everybody has entered (simulated dates, integer microseconds)
 BarrierOk(o) == \A i \in 1..Len(o.enter) : \A j \in 1..Len(o.leave) : o.leave[j] >= o.enter[i]
 
 \* ---- evaluation driver: CASES -> EXP lines; BARRIERS (optional) -> BAR lines
